@@ -282,9 +282,101 @@ fn ord_case(seed: u64) -> Out {
     Out { nops, fail, case: json!({"kind": "ProbOrdMinHash2", "m": m, "l": l, "len": x.len()}) }
 }
 
+/// long pre-histories on one instance: `flavour` 0 = very many calls on few distinct items before the reinit, 1 = very many
+/// (tiny stream, reinit) cycles; counters of the implementation pass 2^16 and 2^17. Checked against a new sketcher after each phase.
+fn long_case(fam: usize, flavour: usize, seed: u64, n: usize) -> Out {
+    let mut rng = rng_from(seed);
+    let kinds = crate::c04::kinds();
+    let m = [3usize, 4, 8, 16, 33][rng.random_range(0..5)];
+    let mut nops = 0u64;
+    if fam < kinds.len() {
+        let kind = kinds[fam];
+        let pool = fresh_ids(&mut rng, 12, 0);
+        let mut used = make_usk(kind, m);
+        for phase in 0..3 {
+            if flavour == 0 {
+                for _ in 0..n {
+                    used.sketch(pool[rng.random_range(0..pool.len())]);
+                }
+                nops += n as u64;
+                used.finish();
+                used.reinit();
+            } else {
+                for c in 0..n {
+                    used.sketch(pool[rng.random_range(0..pool.len())]);
+                    if c % 3 == 0 {
+                        used.sketch(pool[rng.random_range(0..pool.len())]);
+                    }
+                    if kind.is_dens() && c % 16 == 0 {
+                        used.finish();
+                    }
+                    used.reinit();
+                }
+                nops += n as u64;
+            }
+            let x = rand_stream(&mut rng, &pool, 3 * m + 5);
+            let mut fresh = make_usk(kind, m);
+            used.sketch_slice(&x);
+            fresh.sketch_slice(&x);
+            let (a, b) = (used.bits(), fresh.bits());
+            if a != b {
+                let p = (0..a.len()).find(|&p| a[p] != b[p]).unwrap_or(0);
+                return Out { nops, fail: Some(("C13/differs-from-fresh".into(), format!("{} m={}: after a long history ({} x {} {}) and reinit, the sketch of {} items differs from a new sketcher's at entry {} of the bit image ({:#x} vs {:#x})", kind.name(), m, phase + 1, n, if flavour == 0 { "calls" } else { "(stream, reinit) cycles" }, x.len(), p, a[p], b[p]))), case: json!({"kind": kind.name(), "m": m, "long_history": [flavour, n]}) };
+            }
+            used.reinit();
+        }
+        return Out { nops, fail: None, case: json!({"kind": kind.name(), "m": m, "long_history": [flavour, n]}) };
+    }
+    if fam == kinds.len() {
+        let mut used = ProbMinHash2::<u64, FnvHasher>::new(m, 0);
+        let pool: Vec<(u64, f64)> = fresh_ids(&mut rng, 12, 0).into_iter().map(|d| (d, 10f64.powf(rng.random_range(-2.0..2.0)))).collect();
+        for phase in 0..3 {
+            for c in 0..n {
+                let (d, w) = pool[rng.random_range(0..pool.len())];
+                used.hash_item(d, w);
+                if flavour == 1 && c % 2 == 0 {
+                    used.reset();
+                }
+            }
+            nops += n as u64;
+            used.reset();
+            let mut fresh = ProbMinHash2::<u64, FnvHasher>::new(m, 0);
+            for _ in 0..rng.random_range(1..3 * m) {
+                let (d, w) = pool[rng.random_range(0..pool.len())];
+                used.hash_item(d, w);
+                fresh.hash_item(d, w);
+            }
+            if used.get_signature() != fresh.get_signature() || used.verif_registers().iter().map(|v| v.to_bits()).ne(fresh.verif_registers().iter().map(|v| v.to_bits())) {
+                return Out { nops, fail: Some(("C13/differs-from-fresh".into(), format!("ProbMinHash2 m={}: after a long history ({} x {} calls, flavour {}) and reset, signature or registers differ from a new sketcher's", m, phase + 1, n, flavour))), case: json!({"kind": "ProbMinHash2", "m": m, "long_history": [flavour, n]}) };
+            }
+        }
+        return Out { nops, fail: None, case: json!({"kind": "ProbMinHash2", "m": m, "long_history": [flavour, n]}) };
+    }
+    // ProbOrdMinHash2: very many hash_set calls on one instance
+    let l = 1 + flavour;
+    let alphabet = fresh_ids(&mut rng, 5, 0);
+    let mut sk = ProbOrdMinHash2::<FnvHasher>::new(m as u32, l);
+    for phase in 0..3 {
+        for _ in 0..n {
+            let len = rng.random_range(l..l + 4);
+            let y: Vec<u64> = (0..len).map(|_| alphabet[rng.random_range(0..alphabet.len())]).collect();
+            sk.hash_set(&y);
+        }
+        nops += n as u64;
+        let len = rng.random_range(l..l + 30);
+        let x: Vec<u64> = (0..len).map(|_| alphabet[rng.random_range(0..alphabet.len())]).collect();
+        let got = sk.hash_set(&x);
+        let fresh = ProbOrdMinHash2::<FnvHasher>::new(m as u32, l).hash_set(&x);
+        if got != fresh {
+            return Out { nops, fail: Some(("C13/differs-from-fresh".into(), format!("ProbOrdMinHash2 m={} l={}: after {} x {} hash_set calls on one instance the result for a sequence differs from a new instance's", m, l, phase + 1, n))), case: json!({"kind": "ProbOrdMinHash2", "m": m, "l": l, "long_history": [flavour, n]}) };
+        }
+    }
+    Out { nops, fail: None, case: json!({"kind": "ProbOrdMinHash2", "m": m, "l": l, "long_history": [flavour, n]}) }
+}
+
 pub fn run(rep: &mut Report) {
     quiet_panics();
-    rep.rule = "per case: random pre-history (partial streams via slice / item calls, finished or unfinished densification, merges, registers clipped with u16 and small q, several hash_set calls), then reinit/reset, then input X on the used sketcher and on a freshly constructed one: bit-identical sketches and secondary observables (low sketch, overflow count, cardinality, result of a following merge + further streaming, raw densification state, ProbMinHash2 registers, selected indices). Families: SuperMinHash f32/f64/NoHash, SuperMinHash2 u64/u32, SetSketcher u16/u32, Opt/RevOpt densification f32/f64, ProbMinHash2, ProbOrdMinHash2. Distinct = (family, seed); non-trivial when the pre-history is non-empty or repeated rounds ran".into();
+    rep.rule = "per case: random pre-history (partial streams via slice / item calls, finished or unfinished densification, merges, registers clipped with u16 and small q, several hash_set calls), then reinit/reset, then input X on the used sketcher and on a freshly constructed one: bit-identical sketches and secondary observables (low sketch, overflow count, cardinality, result of a following merge + further streaming, raw densification state, ProbMinHash2 registers, selected indices). Long pre-histories: per family and flavour (7e4 / 3e5 calls on few distinct items before the reinit; 7e4 / 3e5 (tiny stream, reinit) cycles), three phases each compared with a new sketcher. Families: SuperMinHash f32/f64/NoHash, SuperMinHash2 u64/u32, SetSketcher u16/u32, Opt/RevOpt densification f32/f64, ProbMinHash2, ProbOrdMinHash2. Distinct = (family, seed); non-trivial when the pre-history is non-empty or repeated rounds ran".into();
     let n: u64 = rep.tier.pick(40_000, 1_000_000);
     let seed = subseed(rep.seed, "C13", &[]);
     let kinds = crate::c04::kinds();
@@ -345,6 +437,29 @@ pub fn run(rep: &mut Report) {
                 }
             }
             Err(p) => rep.violation("C13/panic", &cell, format!("panic: {}", p), json!({"case": i})),
+        }
+    }
+    // long pre-histories
+    let nlong = rep.tier.pick(70_000usize, 300_000);
+    let nf = kinds.len() + 2;
+    let res: Vec<(usize, Result<Out, String>)> = (0..2 * nf)
+        .into_par_iter()
+        .filter(|i| only.as_ref().map(|c| c == &format!("long{}", i) || c == "longs").unwrap_or(true))
+        .map(|i| (i, catch(std::panic::AssertUnwindSafe(|| long_case(i % nf, i / nf, mix(&[seed, i as u64, 0x10a6]), nlong)))))
+        .collect();
+    for (i, r) in res {
+        let cell = format!("long{}", i);
+        match r {
+            Ok(o) => {
+                rep.evaluations += o.nops;
+                rep.count("long_histories", 1);
+                rep.count("long_history_operations", o.nops);
+                rep.distinct.insert(mix(&[i as u64, 0x10a6]));
+                if let Some((k, w)) = o.fail {
+                    rep.violation(&k, &cell, w, o.case);
+                }
+            }
+            Err(p) => rep.violation("C13/panic", &cell, format!("panic: {}", p), json!({"long_case": i})),
         }
     }
     collect_ticks(rep);
